@@ -153,6 +153,9 @@ public:
                              Scalar tol = 100 * Eigen::NumTraits<Scalar>::dummy_precision())
 
     {
+        // results of an earlier call on this object must not survive into this one (maxit == 0, an exception, a restart in the first iteration)
+        m_ritz_pairs = RitzPairs<Scalar>();
+        m_info = CompInfo::NotComputed;
         m_search_space.initialize_search_space(initial_space);
         niter_ = 0;
         for (niter_ = 0; niter_ < maxit; niter_++)
